@@ -13,6 +13,27 @@ use crate::source::{mix, Src};
 use rtcp_types::prelude::*;
 use rtcp_types::*;
 
+thread_local! {
+    /// set by an observation closure as soon as the parser under test has *returned*; a panic
+    /// before that point is the parser failing to return (C01's business), a panic after it is an
+    /// accessor of an accepted value failing
+    static PARSER_RETURNED: std::cell::Cell<bool> = const { std::cell::Cell::new(false) };
+}
+pub fn parser_returned() {
+    PARSER_RETURNED.with(|c| c.set(true));
+}
+pub fn reset_parser_returned() {
+    PARSER_RETURNED.with(|c| c.set(false));
+}
+pub fn did_parser_return() -> bool {
+    PARSER_RETURNED.with(|c| c.get())
+}
+
+/// A failure that belongs to another property was observed: counted in the evidence, not raised.
+pub fn other_property(ctx: &mut Ctx, monitor: &str, what: &str) {
+    ctx.class_dyn(format!("{monitor}:other-property:{what}"));
+}
+
 fn panic_violation(ctx: &mut Ctx, monitor: &'static str, subject: &str, b: &[u8], p: &Panicked) {
     ctx.violate(
         "no-panic",
@@ -67,15 +88,18 @@ struct Framing {
 }
 
 fn framing_of(ty: Option<Ty>, generic: bool, b: &[u8]) -> Result<Result<(Framing, u8), RtcpParseError>, Panicked> {
+    reset_parser_returned();
     call(|| {
         macro_rules! fr {
             ($T:ty) => {{
                 let p = <$T>::parse(b)?;
+                parser_returned();
                 Ok((Framing { hdr: obs::hdr(&p), padding: Some(p.padding()) }, <$T>::PACKET_TYPE))
             }};
         }
         if generic {
             let p = Packet::parse(b)?;
+            parser_returned();
             let pt = match &p {
                 Packet::App(_) => 204,
                 Packet::Bye(_) => 203,
@@ -98,6 +122,7 @@ fn framing_of(ty: Option<Ty>, generic: bool, b: &[u8]) -> Result<Result<(Framing
             Some(Ty::Pfb) => fr!(PayloadFeedback),
             None => {
                 let p = Unknown::parse(b)?;
+                parser_returned();
                 Ok((Framing { hdr: obs::hdr(&p), padding: None }, 0))
             }
         }
@@ -145,7 +170,10 @@ pub fn check_c08(ctx: &mut Ctx, input: &[u8]) {
     ];
     for (ty, generic, name) in subjects {
         match framing_of(ty, generic, b) {
-            Err(p) => panic_violation(ctx, "c08", name, b, &p),
+            // "whenever a parser accepts ...": a parser that unwinds has accepted nothing (C01's business);
+            // a header accessor that unwinds on an accepted value does break "the header accessors then return"
+            Err(p) if did_parser_return() => panic_violation(ctx, "c08", name, b, &p),
+            Err(_) => other_property(ctx, "c08", "parser-panics(C01)"),
             Ok(Err(_)) => {}
             Ok(Ok((fr, variant_pt))) => {
                 accepted = true;
@@ -306,7 +334,17 @@ pub fn check_c18(ctx: &mut Ctx, input: &[u8]) {
     for (name, own_pt, min, specific, r) in results {
         let e = match r {
             Err(p) => {
-                panic_violation(ctx, "c18", name, b, &p);
+                // The property promises a *specific error* for two classes of input (below the minimum;
+                // version 2, right type, length field disagreeing with the length): there an unwind is
+                // the promised error not being reported. Anywhere else an unwinding parser has simply not
+                // rejected anything with an error (C01's business).
+                let promised = (min > 0 && len < min)
+                    || (specific && len >= min && len >= 4 && dec::version(b) == 2 && own_pt.map(|pt| pt == b[1]).unwrap_or(true) && dec::declared_len(b) != len);
+                if promised {
+                    panic_violation(ctx, "c18", name, b, &p);
+                } else {
+                    other_property(ctx, "c18", "parser-panics(C01)");
+                }
                 continue;
             }
             Ok(None) => continue,
@@ -412,7 +450,7 @@ pub fn check_c18(ctx: &mut Ctx, input: &[u8]) {
         out
     });
     match conv {
-        Err(p) => panic_violation(ctx, "c18", "conversions", b, &p),
+        Err(_) => other_property(ctx, "c18", "conversion-or-iteration-panics(C01)"),
         Ok(list) => {
             for (route, target, pt, e, tile) in list {
                 any_err = true;
@@ -585,7 +623,26 @@ pub fn check_c12(ctx: &mut Ctx, input: &[u8]) {
         None => ctx.class_dyn(format!("c12:generic-err:{sel_name}")),
     }
     match r {
-        Err(p) => panic_violation(ctx, "c12", sel_name, b, &p),
+        Err(p) => {
+            // which side unwound? if the typed parser selected by the type byte unwinds on its own and the
+            // generic parser does too, the two outcomes are the same (and the unwind is C01's business)
+            let typed_alone = call(|| match sel {
+                Some(Ty::Sr) => SenderReport::parse(b).is_ok(),
+                Some(Ty::Rr) => ReceiverReport::parse(b).is_ok(),
+                Some(Ty::Sdes) => Sdes::parse(b).is_ok(),
+                Some(Ty::Bye) => Bye::parse(b).is_ok(),
+                Some(Ty::App) => App::parse(b).is_ok(),
+                Some(Ty::Tfb) => TransportFeedback::parse(b).is_ok(),
+                Some(Ty::Pfb) => PayloadFeedback::parse(b).is_ok(),
+                None => Unknown::parse(b).is_ok(),
+            });
+            let generic_alone = call(|| Packet::parse(b).is_ok());
+            if typed_alone.is_err() && generic_alone.is_err() {
+                other_property(ctx, "c12", "both-parsers-panic(C01)");
+            } else {
+                panic_violation(ctx, "c12", sel_name, b, &p);
+            }
+        }
         Ok(Err((clause, feature, text))) => ctx.violate(
             &clause,
             sel_name,
@@ -747,7 +804,25 @@ pub fn check_c11(ctx: &mut Ctx, input: &[u8]) {
     let hist = mix(fnv(b), ctx.seed);
     let r = call(|| iterate_with_history(b, hist));
     match r {
-        Err(p) => panic_violation(ctx, "c11", "Compound", b, &p),
+        Err(p) => {
+            // does the generic parser unwind on one of the tiles on its own? then iteration "yields what the
+            // generic parser returns" there as well, namely nothing (C01's business); otherwise iteration
+            // (or Compound::parse) unwinds where the per-tile parser returns: this property
+            let alone = call(|| {
+                if let Some(t) = &tiles {
+                    for (a, z) in t {
+                        if Packet::parse(&b[*a..*z]).is_err() {
+                            break;
+                        }
+                    }
+                }
+            });
+            if alone.is_err() {
+                other_property(ctx, "c11", "tile-parser-panics(C01)");
+            } else {
+                panic_violation(ctx, "c11", "Compound", b, &p);
+            }
+        }
         Ok(Err(e)) => {
             if tiles.is_some() {
                 ctx.violate(
@@ -796,8 +871,9 @@ pub fn check_c11(ctx: &mut Ctx, input: &[u8]) {
             });
             let exp = match exp {
                 Ok(v) => v,
-                Err(p) => {
-                    panic_violation(ctx, "c11", "Packet", b, &p);
+                Err(_) => {
+                    // the reference (generic parser on a tile) unwinds: nothing to compare with (C01's business)
+                    other_property(ctx, "c11", "tile-parser-panics(C01)");
                     return;
                 }
             };
@@ -967,7 +1043,10 @@ pub fn check_c09_bytes(ctx: &mut Ctx, input: &[u8]) {
     let bound = obs::bound_for(len);
     let mut accepted = false;
     let mut report = |ctx: &mut Ctx, name: &'static str, r: Result<Result<Option<()>, String>, Panicked>| match r {
-        Err(p) => panic_violation(ctx, "c09-bytes", name, b, &p),
+        // "for every byte string a parser accepts": an unwinding parser has accepted nothing (C01's
+        // business); an accessor unwinding on an accepted value does not return the value it owes
+        Err(p) if did_parser_return() => panic_violation(ctx, "c09-bytes", name, b, &p),
+        Err(_) => other_property(ctx, "c09", "parser-panics(C01)"),
         Ok(Err(why)) => {
             let field = why.split(':').next().unwrap_or("field").to_string();
             ctx.violate(
@@ -1005,8 +1084,10 @@ pub fn check_c09_bytes(ctx: &mut Ctx, input: &[u8]) {
         }
         Ok(())
     };
+    reset_parser_returned();
     let r = call(|| {
         let Ok(p) = SenderReport::parse(b) else { return Ok(None) };
+        parser_returned();
         eqf!("ssrc", p.ssrc(), dec::be32(b, 4));
         eqf!("ntp_timestamp", p.ntp_timestamp(), dec::be64(b, 8));
         eqf!("rtp_timestamp", p.rtp_timestamp(), dec::be32(b, 16));
@@ -1017,16 +1098,20 @@ pub fn check_c09_bytes(ctx: &mut Ctx, input: &[u8]) {
         Ok(Some(()))
     });
     report(ctx, "SenderReport", r);
+    reset_parser_returned();
     let r = call(|| {
         let Ok(p) = ReceiverReport::parse(b) else { return Ok(None) };
+        parser_returned();
         eqf!("ssrc", p.ssrc(), dec::be32(b, 4));
         eqf!("n_reports", p.n_reports(), b[0] & 0x1f);
         blocks_ok(obs::drain(p.report_blocks(), bound), 8, (b[0] & 0x1f) as usize)?;
         Ok(Some(()))
     });
     report(ctx, "ReceiverReport", r);
+    reset_parser_returned();
     let r = call(|| {
         let Ok(p) = ReportBlock::parse(b) else { return Ok(None) };
+        parser_returned();
         let o = obs::rb(&p);
         let w = rb_at(b, 0);
         if o != w {
@@ -1035,8 +1120,10 @@ pub fn check_c09_bytes(ctx: &mut Ctx, input: &[u8]) {
         Ok(Some(()))
     });
     report(ctx, "ReportBlock", r);
+    reset_parser_returned();
     let r = call(|| {
         let Ok(p) = App::parse(b) else { return Ok(None) };
+        parser_returned();
         eqf!("ssrc", p.ssrc(), dec::be32(b, 4));
         eqf!("subtype", p.subtype(), b[0] & 0x1f);
         eqf!("name", &p.name()[..], &b[8..12]);
@@ -1053,8 +1140,10 @@ pub fn check_c09_bytes(ctx: &mut Ctx, input: &[u8]) {
         Ok(Some(()))
     });
     report(ctx, "App", r);
+    reset_parser_returned();
     let r = call(|| {
         let Ok(p) = Bye::parse(b) else { return Ok(None) };
+        parser_returned();
         let c = (b[0] & 0x1f) as usize;
         let s = obs::drain(p.ssrcs(), bound);
         let want: Vec<u32> = (0..c).map(|i| dec::be32(b, 4 + 4 * i)).collect();
@@ -1096,24 +1185,30 @@ pub fn check_c09_bytes(ctx: &mut Ctx, input: &[u8]) {
         Ok(Some(()))
     });
     report(ctx, "Bye", r);
+    reset_parser_returned();
     let r = call(|| {
         let Ok(p) = TransportFeedback::parse(b) else { return Ok(None) };
+        parser_returned();
         eqf!("sender_ssrc", p.sender_ssrc(), dec::be32(b, 4));
         eqf!("media_ssrc", p.media_ssrc(), dec::be32(b, 8));
         eqf!("format", p.count(), b[0] & 0x1f);
         Ok(Some(()))
     });
     report(ctx, "TransportFeedback", r);
+    reset_parser_returned();
     let r = call(|| {
         let Ok(p) = PayloadFeedback::parse(b) else { return Ok(None) };
+        parser_returned();
         eqf!("sender_ssrc", p.sender_ssrc(), dec::be32(b, 4));
         eqf!("media_ssrc", p.media_ssrc(), dec::be32(b, 8));
         eqf!("format", p.count(), b[0] & 0x1f);
         Ok(Some(()))
     });
     report(ctx, "PayloadFeedback", r);
+    reset_parser_returned();
     let r = call(|| {
         let Ok(p) = Unknown::parse(b) else { return Ok(None) };
+        parser_returned();
         if p.data() != b {
             return Err("data: Unknown::data() differs from the input".into());
         }
